@@ -145,6 +145,30 @@ func corruptBody(F *core.Tape, body string) (string, string, string) {
 type conformer struct {
 	ex   *gExec
 	errs []string
+	// rt: concrete type of the object at a response path, learned from the reference execution
+	// (needed where the schema type is an interface or a union)
+	rt map[string]string
+}
+
+// concrete resolves the type of the object at path: the schema type itself unless it is abstract.
+func (c *conformer) concrete(typeName string, path []any, v any) string {
+	td := c.ex.schema.Types[typeName]
+	if td == nil || (td.Kind != "interface" && td.Kind != "union") {
+		return typeName
+	}
+	if m, ok := v.(map[string]any); ok {
+		if tn, ok := m["__typename"].(string); ok {
+			for _, p := range td.Possible {
+				if p == tn {
+					return tn
+				}
+			}
+		}
+	}
+	if tn := c.rt[pathString(path)]; tn != "" {
+		return tn
+	}
+	return ""
 }
 
 func (c *conformer) fail(path []any, format string, a ...any) {
@@ -237,7 +261,25 @@ func (c *conformer) value(t gTypeRef, sel []*gSelection, v any, path []any) {
 			c.fail(path, "expected a Color member, got %s", canonValue(v))
 		}
 	default:
-		c.object(t.Name, sel, v, path)
+		tn := c.concrete(t.Name, path, v)
+		if tn == "" {
+			// no runtime type known for this position: it must conform as some member type
+			td := c.ex.schema.Types[t.Name]
+			var first []string
+			for i, p := range td.Possible {
+				sub := &conformer{ex: c.ex, rt: c.rt}
+				sub.object(p, sel, v, path)
+				if len(sub.errs) == 0 {
+					return
+				}
+				if i == 0 {
+					first = sub.errs
+				}
+			}
+			c.errs = append(c.errs, first...)
+			return
+		}
+		c.object(tn, sel, v, path)
 	}
 }
 
@@ -259,6 +301,11 @@ func (c *conformer) nearestNullable(op *gOperation, path []any) ([]any, bool) {
 	for i, el := range path {
 		switch k := el.(type) {
 		case string:
+			if tn := c.concrete(typeName, path[:i], nil); tn != "" {
+				typeName = tn
+			} else {
+				return nil, false
+			}
 			var groups []*gCollected
 			c.ex.collect(typeName, sel, &groups, map[string]bool{})
 			var g *gCollected
@@ -382,7 +429,7 @@ func isPrefix(a, b []any) bool {
 func runFED02(r *core.Run) {
 	const prop = "C02"
 	W := r.W
-	e := newFedEnv(r, true)
+	e := newFedEnvA(r, true, fedAbstractMode(r))
 	ctx, cancel := context.WithCancel(context.Background())
 	defer cancel()
 	o := fedEngineOpts{multiFetch: W.Prob(0.15), scheduleFetches: W.Prob(0.2)}
@@ -455,6 +502,7 @@ func runFED02(r *core.Run) {
 		return
 	}
 	r.Res.Nontrivial = len(injected) > 0
+	e.abstractProbes([]*fedOp{op})
 	if len(injected) == 0 {
 		return
 	}
@@ -491,7 +539,12 @@ func runFED02(r *core.Run) {
 	vd := json.NewDecoder(strings.NewReader(op.Vars))
 	vd.UseNumber()
 	_ = vd.Decode(&vars)
-	cf := &conformer{ex: &gExec{schema: e.mono, doc: doc, vars: vars}}
+	// runtime types at abstract positions: from the reference execution of the same operation
+	rt := map[string]string{}
+	gOnObject = func(path []any, typ string) { rt[pathString(path)] = typ }
+	_, _ = e.monolith(op, op.Query, nil)
+	gOnObject = nil
+	cf := &conformer{ex: &gExec{schema: e.mono, doc: doc, vars: vars}, rt: rt}
 	data, hasData := resp["data"]
 	if !hasData {
 		r.Fail(prop, "shape", "no-data-key", "response has no data key: %s\n%s", body, ctxMsg)
